@@ -133,7 +133,11 @@ def check_hash_iteration(ctx, F):
                         "none of the order-insensitive uses applies (sorted after collection / B-tree sink / one write per key)", fn["file"] if fn else None, fn["line"] if fn else None)
         else:
             table.append((owner, why))
-    ctx.rule("det.hash-iter", n, floor=4, note="; ".join(f"{o.split('::')[-1]}: {w}" for o, w in table))
+    # the expected number of such sites is "as few as possible": no floor, but the matcher must recognise its positive example on every run
+    if not is_hash_recv("std::iter::traits::collect::IntoIterator::into_iter", "&hashbrown::map::HashMap<std::path::PathBuf, std::string::String>") \
+            or not is_hash_recv("std::collections::hash::map::HashMap::<K, V, S>::iter", "") or is_hash_recv("std::collections::btree::map::BTreeMap::<K, V, A>::iter", ""):
+        ctx.violate("det.hash-iter", "fixture", "the hash-iteration matcher does not recognise its positive example")
+    ctx.rule("det.hash-iter", n, floor=0, note="; ".join(f"{o.split('::')[-1]}: {w}" for o, w in table))
 
 
 def check_walks(ctx, F):
@@ -267,7 +271,7 @@ def check_clean_cover(ctx, F):
                 if H.tag(parg) == "local" and parg[1] in loop_vars:
                     ctx.violate("fs.clean-cover", fn["path"], f"{fn['path']} writes one file per loop iteration (path `{parg[1]}`) without registering it with the stale-file sweep (ModFiles): "
                                 "pages of objects that no longer exist are never removed", fn["file"], fn["line"])
-    ctx.rule("fs.clean-cover", n, floor=18, note="write-helper call sites outside file_utils; per-object paths must go through ModFiles::write_file")
+    ctx.rule("fs.clean-cover", n, floor=12, note="write-helper call sites outside file_utils; per-object paths must go through ModFiles::write_file")
 
 
 # ---- tie order: a stable sort by a projection keeps ties in input order; in the walk-ordered region that is file-system order ----------
@@ -457,7 +461,7 @@ def check_tie_order(ctx, F):
                 if verdict:
                     ctx.violate("det.tie-order", f"{fn['path']}|{field}", f"{where} {verdict}; `{owner.split('::')[-1]}.{field}` is sorted by {proj[0]} only ({tfn['path'].split('::')[-1]}), "
                                 "so entries with equal keys are in the order the file system lists the wowm files: the output depends on the directory order", fn["file"], fn["line"])
-    ctx.rule("det.tie-order", n_sorts, floor=14, note=f"sort sites ({n_partial} by a projection, {len(tainted_fns)} of them in the walk-ordered phase); {len(tainted_fields)} tie-ordered struct field(s), "
+    ctx.rule("det.tie-order", n_sorts, floor=8, note=f"sort sites ({n_partial} by a projection, {len(tainted_fns)} of them in the walk-ordered phase); {len(tainted_fields)} tie-ordered struct field(s), "
              f"{n_cons} consumer sites all order-insensitive on ties (any/all/len/is_empty, B-tree sinks, loops that only read the sort key or only return constants)")
     if tainted_fns and n_cons < 6:
         ctx.violate("det.tie-order", "floor|consumers", f"only {n_cons} consumers of the tie-ordered field(s) found, 6 were confirmed by reading (anchor disappeared)")
